@@ -43,12 +43,12 @@ def retId : Ret Int → Int
 
 /-- run a history; per step: the view and the id of the returned frame (-1: not a frame);
     then the final heap (columns of every frame) -/
-def hist (g : G) (ops : List (Op Int)) : String :=
+def hist (R : Repairs) (g : G) (ops : List (Op Int)) : String :=
   let rec go (s : St Int) (ops : List (Op Int)) (acc : List String) : St Int × List String :=
     match ops with
     | [] => (s, acc.reverse)
     | op :: rest =>
-      let r := step g s op
+      let r := step R g s op
       go r.1 rest (s!"{encView (view r.1 op r.2)} {retId r.2}" :: acc)
   let (s, outs) := go St.init ops []
   let heap := s.heap.map (fun fr =>
@@ -79,8 +79,12 @@ def handle (cmd : String) (args : List Int) : Option String :=
       pure (if fl.isEmpty then (if decide (Unsupported c) then "ok unsupported" else "ok")
             else "fail " ++ ",".intercalate fl)
   | "C15.hist" => do
-      let (g, ops) ← run (do let g ← gP; let ops ← list opP; pure (g, ops)) args
-      pure (hist g ops)
+      -- repair switches (ignoreProj sideRestore copyFrame), grid parameters, the history
+      let (R, g, ops) ← run (do
+        let a ← bool; let b ← bool; let c ← bool
+        let g ← gP; let ops ← list opP
+        pure (({ ignoreProj := a, sideRestore := b, copyFrame := c } : Repairs), g, ops)) args
+      pure (hist R g ops)
   | _ => none
 
 end UxVerif.Driver.C15
